@@ -88,3 +88,20 @@ Example C08_hma_constant_noise_refuted :
     PrimFloat.eqb (snd (hma_next (pw := PW8) s0 x))
                   (snd (hma_next (pw := PW8) (steps (hma_next (pw := PW8)) s0 [x]) x)) = false.
 Proof. eexists. split; [reflexivity|]. vm_compute. reflexivity. Qed.
+
+(** Constant input gives constant output for the MA constructor - all 15 averaging kinds, every length, any number of
+    steps (exact arithmetic; the affine law of C15 with slope 0) - and for indicators composed of such averages *)
+From Yata Require Import Core.Strings Indicators.Common Indicators.Set1 Proofs.MAProofs Proofs.Constant.
+Theorem C08_ma_constant_all_kinds {pw : PW} (c : ma_cfg) (b : @F NumR) k : ma_len_ok c ->
+  exists s0, ma_init c b = Ok s0 /\ snd (ma_next (steps ma_next s0 (repeat b k)) b) = b.
+Proof. exact (ma_method_constant c b k). Qed.
+Theorem C08_envelopes_constant {pw : PW} (cfg : env_cfg (N := NumR)) (c0 : candle (N := NumR)) k : env_validate cfg = true -> ma_len_ok (ec_ma cfg) ->
+  exists s0, env_init cfg c0 = Ok s0 /\
+    fst (snd (env_next (steps env_next s0 (repeat c0 k)) c0)) =
+    let v := c_source c0 (ec_source cfg) in [fmul v (fadd f1 (ec_k cfg)); fmul v (fsub f1 (ec_k cfg)); c_source c0 (ec_source2 cfg)].
+Proof. exact (envelopes_constant cfg c0 k). Qed.
+Theorem C08_macd_constant {pw : PW} (cfg : macd_cfg) (c0 : candle (N := NumR)) k : macd_validate cfg = true ->
+  ma_len_ok (mc_ma1 cfg) -> ma_len_ok (mc_ma2 cfg) -> ma_len_ok (mc_signal cfg) ->
+  exists s0, macd_init (N := NumR) cfg c0 = Ok s0 /\
+    fst (snd (macd_next (steps macd_next s0 (repeat c0 k)) c0)) = [0%R; 0%R].
+Proof. exact (macd_constant cfg c0 k). Qed.
